@@ -11,3 +11,6 @@ import Rpki.Props.C11
 #print axioms Rpki.Props.C11.idexchange_roundtrip
 #print axioms Rpki.Props.C11.idexchange_injective
 #print axioms Rpki.Props.C11.idexchange_tree_wf
+#print axioms Rpki.Props.C11.provisioning_roundtrip
+#print axioms Rpki.Props.C11.provisioning_injective
+#print axioms Rpki.Props.C11.provisioning_fields
